@@ -195,6 +195,15 @@ CHECKS = {
         note="Partial: pointer sharing between T values is not representable in the functional model; it is observed through the snapshot hook (all entries, every program) instead of proved. Programs reopening configured classes are excluded as in the statement.",
         technique="Lean 4 proof (invariant by induction over operation sequences) + in-process snapshot correspondence over a hook + black-box probe comparison",
     ),
+    "C10": dict(
+        category="proof",
+        text="Narrowing core proved in Lean on the model of setConditionalCtx / narrowing / the restore closures, for every store, variable, current type and tested class: in the branch a test admits the variable is the unified tested class (positive_branch); in the branch that excludes it, exactly the variants whose class is not the tested one, in their order (negative_branch); the else branch of a positive test likewise (else_after_positive); no other variable changes; after the conditional every tested variable has its previous value (restore_spec/restore_other). "
+             "Tied to the Go code by the `narrow` differential stream through a verif hook; that Evaluation isolates the shared evaluator's state for nested conditionals and defers the restores of elsif conditions is a regenerated source fact (both added by fix: commits). "
+             "End-to-end: generated programs with union variables, if/unless/elsif/else, nil?/!nil?/is_a?, && chains, nesting and unrelated statements inside branches; dbtp inside every branch and after `end` against a reference model of the admitted variants.",
+        design="DESIGN.md §4 C10",
+        note="Partial: getBackupContext's token-level condition parsing is end-to-end only. Known findings K29 (elsif with a negated test ignores earlier narrowing) and K30 (negative branch of an && chain narrows every chained variable): `_partial` scope = single-atom conditions and positive chains.",
+        technique="Lean 4 proof (case analysis over the narrowing model) + differential stream over a hook + regenerated source facts + end-to-end reference comparison",
+    ),
     "C17": dict(
         category="proof",
         text="Scope core on the Go-map model of TFrame: Lean proves for EVERY sequence of writes performed inside a block that a key absent from the entry snapshot (and not written back) is absent after the block, that outer variables keep what the block assigned to them, that a shadowed variable gets its saved value back (distinct restore keys), "
